@@ -119,15 +119,7 @@ void Alarm::refresh() {
     state_ = State::kInited;
     sp_timer_ev_->disable();
     target_utc_sec_ = 0;    //! 如果不清0，那么每refresh()一次都会往后延一天
-
-    //! 已触发的时间点只在"定时器提前了一点点触发"的窗口内保留：此时系统时间还没走到该时间点，
-    //! 若清0，activeTimer() 从当前时间算起，又会算出同一个时间点，它就触发两次
-    //! （在回调里 refresh()，如 WorkdayAlarm 的回调里更新 WorkdayCalendar，必然落在这个窗口内）。
-    //! 其它情况（含系统时间被回拨）都清0，按当前时间重新计算
-    uint32_t curr_utc_sec = 0;
-    if (!GetCurrentUtcTime(curr_utc_sec) || curr_utc_sec >= fired_utc_sec_ || (fired_utc_sec_ - curr_utc_sec) > 1)
-      fired_utc_sec_ = 0;
-
+    //! fired_utc_sec_ 不在这里清0：它是否还作数，由 activeTimer() 根据当前时间判断
     activeTimer();
   }
 }
@@ -189,7 +181,12 @@ bool Alarm::activeTimer() {
   int timezone_offset_seconds = using_independ_timezone_ ? \
                                 timezone_offset_seconds_ : GetSystemTimezoneOffsetSeconds();
 
-  auto next_utc_start_sec = std::max(curr_utc_sec, fired_utc_sec_);
+  //! 已触发的时间点只在"定时器提前了一点点触发"的窗口内（系统时间离它不到1秒）才作为起点。
+  //! 如果系统时间比它早得多，那是系统时间被回拨了：要按当前时间重新计算，否则
+  //! 当前时间到 fired_utc_sec_ 之间的时间点都会被跳过（refresh()、disable() 后再 enable() 都会走到这里）
+  auto next_utc_start_sec = curr_utc_sec;
+  if (fired_utc_sec_ > curr_utc_sec && (fired_utc_sec_ - curr_utc_sec) <= 1)
+    next_utc_start_sec = fired_utc_sec_;
 
   //! Q: 为什么要用curr_utc_sec与fired_utc_sec_中最大值来算下一轮的时间点？
   //! A: 因为在实践中存在steady_clock比system_clock快的现象，会导致重复触发定时任务的问题。
